@@ -187,7 +187,10 @@ impl<'tcx> Cx<'tcx> {
     }
 
     fn ty_str(&self, t: ty::Ty<'tcx>) -> String {
-        with_no_trimmed_paths!(t.to_string())
+        // canonical type paths: crate-qualified, real definition paths instead of re-exports
+        rustc_middle::ty::print::with_resolve_crate_name!(rustc_middle::ty::print::with_no_visible_paths!(
+            with_no_trimmed_paths!(t.to_string())
+        ))
     }
 
     fn dump_adt(&self, id: LocalDefId) -> J {
@@ -562,7 +565,7 @@ impl<'a, 'tcx> W<'a, 'tcx> {
                 }
                 let args = self.tr.node_args(e.hir_id);
                 if !args.is_empty() {
-                    f.push(("gargs", J::Arr(args.iter().map(|a| J::s(&with_no_trimmed_paths!(a.to_string()))).collect())));
+                    f.push(("gargs", J::Arr(args.iter().map(|a| J::s(&rustc_middle::ty::print::with_resolve_crate_name!(rustc_middle::ty::print::with_no_visible_paths!(with_no_trimmed_paths!(a.to_string()))))).collect())));
                 }
             }
             E::Call(func, args) => {
@@ -588,7 +591,7 @@ impl<'a, 'tcx> W<'a, 'tcx> {
                 }
                 let ga = self.tr.node_args(e.hir_id);
                 if !ga.is_empty() {
-                    f.push(("gargs", J::Arr(ga.iter().map(|a| J::s(&with_no_trimmed_paths!(a.to_string()))).collect())));
+                    f.push(("gargs", J::Arr(ga.iter().map(|a| J::s(&rustc_middle::ty::print::with_resolve_crate_name!(rustc_middle::ty::print::with_no_visible_paths!(with_no_trimmed_paths!(a.to_string()))))).collect())));
                 }
                 f.push(("recv_ty", J::s(&self.cx.ty_str(self.tr.expr_ty_adjusted(recv)))));
                 f.push(("recv", self.expr(recv)));
